@@ -315,6 +315,7 @@ func dnsScenarioC09(w *dnsWorld) {
 	}
 	w.checkCoalescing()
 	w.checkCacheContents()
+	w.fwdsAtReset = len(w.fwds) // forwarders created later (by a late background refresh) stay cached, legitimately open
 	w.env("reset", func() { _ = w.ctl.ResetDnsForwarders() })
 	// queries still waiting for an upstream (e.g. a background refresh) end by their timeouts
 	s.Quiesce(func() bool { return w.envTasks == 0 && w.fwdInFlight() == 0 }, 0, 30*time.Second)
